@@ -150,6 +150,13 @@ func (t *Trailer) CopyTo(dst *Trailer) {
 
 func (t *Trailer) SetTrailers(trailers []byte) (err error) {
 	t.ResetSkipNormalize()
+	return t.AddTrailers(trailers)
+}
+
+// AddTrailers adds the names of one more 'Trailer' header field to the announced trailers.
+//
+// Several 'Trailer' fields of one message combine into one list (RFC 7230, section 3.2.2).
+func (t *Trailer) AddTrailers(trailers []byte) (err error) {
 	for i := -1; i+1 < len(trailers); {
 		trailers = trailers[i+1:]
 		i = bytes.IndexByte(trailers, ',')
@@ -157,10 +164,11 @@ func (t *Trailer) SetTrailers(trailers []byte) (err error) {
 			i = len(trailers)
 		}
 		trailerKey := trailers[:i]
-		for len(trailerKey) > 0 && trailerKey[0] == ' ' {
+		// optional whitespace around a list element is SP / HTAB (RFC 7230, section 3.2.3)
+		for len(trailerKey) > 0 && (trailerKey[0] == ' ' || trailerKey[0] == '\t') {
 			trailerKey = trailerKey[1:]
 		}
-		for len(trailerKey) > 0 && trailerKey[len(trailerKey)-1] == ' ' {
+		for len(trailerKey) > 0 && (trailerKey[len(trailerKey)-1] == ' ' || trailerKey[len(trailerKey)-1] == '\t') {
 			trailerKey = trailerKey[:len(trailerKey)-1]
 		}
 
